@@ -63,27 +63,34 @@ func recordStream(enc *json.Encoder, def lexer.Definition, label string, nodrop 
 		var err error
 		sd, isStr := def.(lexer.StringDefinition)
 		bd, isBytes := def.(lexer.BytesDefinition)
-		switch {
-		case label == "text/pkg.LexString":
-			l = lexer.LexString(fn, in) // the package-level helpers of the text/scanner lexer
-		case label == "text/pkg.LexBytes":
-			l = lexer.LexBytes(fn, []byte(in))
-		case label == "text/pkg.LexWithScanner":
-			sc := &scanner.Scanner{}
-			sc.Init(strings.NewReader(in))
-			l = lexer.LexWithScanner(fn, sc)
-		case strings.HasSuffix(label, "/dataerr"):
-			l, err = def.Lex(fn, iotest.DataErrReader(strings.NewReader(in))) // the last bytes arrive together with io.EOF
-		case strings.HasSuffix(label, "/onebyte"):
-			l, err = def.Lex(fn, iotest.OneByteReader(strings.NewReader(in)))
-		case strings.HasSuffix(label, "/reader") || !isStr:
-			l, err = def.Lex(fn, strings.NewReader(in))
-		case strings.HasSuffix(label, "/bytes") && isBytes:
-			callerBuf = []byte(in)
-			l, err = bd.LexBytes(fn, callerBuf)
-		default:
-			l, err = sd.LexString(fn, in)
+		mk := func(in string, main bool) (l lexer.Lexer, err error) {
+			switch {
+			case label == "text/pkg.LexString":
+				l = lexer.LexString(fn, in) // the package-level helpers of the text/scanner lexer
+			case label == "text/pkg.LexBytes":
+				l = lexer.LexBytes(fn, []byte(in))
+			case label == "text/pkg.LexWithScanner":
+				sc := &scanner.Scanner{}
+				sc.Init(strings.NewReader(in))
+				l = lexer.LexWithScanner(fn, sc)
+			case strings.HasSuffix(label, "/dataerr"):
+				l, err = def.Lex(fn, iotest.DataErrReader(strings.NewReader(in))) // the last bytes arrive together with io.EOF
+			case strings.HasSuffix(label, "/onebyte"):
+				l, err = def.Lex(fn, iotest.OneByteReader(strings.NewReader(in)))
+			case strings.HasSuffix(label, "/reader") || !isStr:
+				l, err = def.Lex(fn, strings.NewReader(in))
+			case strings.HasSuffix(label, "/bytes") && isBytes:
+				buf := []byte(in)
+				if main {
+					callerBuf = buf
+				}
+				l, err = bd.LexBytes(fn, buf)
+			default:
+				l, err = sd.LexString(fn, in)
+			}
+			return
 		}
+		l, err = mk(in, true)
 		if err != nil {
 			return
 		}
@@ -96,6 +103,20 @@ func recordStream(enc *json.Encoder, def lexer.Definition, label string, nodrop 
 			if t.EOF() {
 				evs = append(evs, ev{"ev": "eof", "off": t.Pos.Offset, "len": 0, "line": t.Pos.Line, "col": t.Pos.Column, "vok": t.Value == "", "fok": t.Pos.Filename == fn})
 				ok = true
+				// a lexer that has reached the end stays there, whatever other lexers of the same kind do meanwhile: a second
+				// lexer is created and read, then this one is asked again (anything but the same EOF is one more event, which
+				// no trace of LexStream allows after the end)
+				const otherIn = "b a\n7"
+				if o, oerr := mk(otherIn, false); oerr == nil && o != nil {
+					ot, oterr := o.Next()
+					t2, err2 := l.Next()
+					if err2 != nil || !t2.EOF() || t2.Pos != t.Pos || t2.Value != "" {
+						evs = append(evs, ev{"ev": "tok", "off": t2.Pos.Offset, "len": len(t2.Value), "line": t2.Pos.Line, "col": t2.Pos.Column, "vok": false, "fok": false})
+					}
+					if oterr == nil && !ot.EOF() && (ot.Pos.Offset < 0 || ot.Pos.Offset+len(ot.Value) > len(otherIn) || otherIn[ot.Pos.Offset:ot.Pos.Offset+len(ot.Value)] != ot.Value) {
+						evs = append(evs, ev{"ev": "tok", "off": ot.Pos.Offset, "len": len(ot.Value), "line": ot.Pos.Line, "col": ot.Pos.Column, "vok": false, "fok": false})
+					}
+				}
 				return
 			}
 			toks = append(toks, t)
